@@ -1,3 +1,24 @@
-/-! # C13 — (stub: property theorems go here; see docs/BUILDING.md) -/
+import PtVerif.Model.Print
+import PtVerif.Model.GrammarTable
+/-! # C13 — printing a formula and parsing it back (first cut: definitional clauses and `%g` boundary facts) -/
 namespace PtVerif.C13
+open PtModel PtModel.Grammar PtModel.Print
+
+/-- `repr` shows `formula('<str>')` -/
+theorem repr_eq (T : Table) (name : Option (List Char)) (s : Items Q) :
+    reprFormula T name s = "formula('".toList ++ strFormula T name s ++ "')".toList := rfl
+
+/-- a named formula prints its name -/
+theorem named_prints_name (T : Table) (c : Char) (cs : List Char) (s : Items Q) :
+    strFormula T (some (c :: cs)) s = c :: cs := rfl
+
+/-- `%g` switches to exponent form exactly where six digits round up to 10^6 … -/
+theorem fmtG6_high_switch :
+    fmtG6 ⟨1999999, 2⟩ = "1e+06".toList ∧ fmtG6 ⟨9999994, 10⟩ = "999999".toList := by decide +kernel
+
+/-- … and below 10^-4 -/
+theorem fmtG6_low_switch :
+    fmtG6 ⟨1, 10000⟩ = "0.0001".toList ∧ fmtG6 ⟨999999, 10000000000⟩ = "9.99999e-05".toList := by
+  decide +kernel
+
 end PtVerif.C13
